@@ -22,6 +22,14 @@ class SimError(Exception):
         self.nid = nid
 
 
+class SimAbort(BaseException):
+    """an exception that does not derive from Exception"""
+
+    def __init__(self, nid):
+        super().__init__("abort in " + nid)
+        self.nid = nid
+
+
 class Sentinel:
     """the unique object returned by one job body"""
     __slots__ = ('nid',)
@@ -178,6 +186,12 @@ class _JobMixin(_NodeMixin):
                 await _spend(spec.get('cleanup') or ())
             except asyncio.CancelledError:
                 ctx.log('cancel_again', nid)
+            if spec.get('cleanup_outcome') == 'ret':
+                # the job catches its cancellation and returns normally
+                ret = Sentinel(nid)
+                ctx.objs.setdefault(nid, {})['ret'] = ret
+                ctx.log('exit', nid, 'cret')
+                return ret
             if spec.get('cleanup_outcome') == 'exc':
                 # the job does end, but by raising from its cancellation
                 # handler (a failing 'finally' clause)
@@ -188,7 +202,8 @@ class _JobMixin(_NodeMixin):
             ctx.log('exit', nid, 'cancelled')
             raise
         if outcome == 'exc':
-            exc = SimError(nid, noargs=bool(spec.get('exc_noargs')))
+            exc = SimAbort(nid) if spec.get('exc_base') else \
+                SimError(nid, noargs=bool(spec.get('exc_noargs')))
             ctx.objs.setdefault(nid, {})['exc'] = exc
             ctx.log('exit', nid, 'exc')
             raise exc
@@ -208,6 +223,8 @@ class _JobMixin(_NodeMixin):
                 await _spend(handler)
         except asyncio.CancelledError:
             ctx.log('sd_cancel', nid)
+            if spec.get('handler_absorbs'):
+                return              # absorbs its cancellation, ends normally
             raise
         ctx.log('sd_exit', nid)
 
